@@ -5,7 +5,7 @@ From Coq Require Import List String Bool Arith ZArith.
 From Helm Require Import Common.Strs Values.Tree Values.Schema Values.Scope Values.Deps Values.Gate.
 Import ListNotations.
 
-Inductive op := OpInstall | OpInstallDry | OpTemplate | OpUpgrade | OpUpgradeDry | OpLint.
+Inductive op := OpInstall | OpInstallPlain | OpInstallDry | OpTemplate | OpUpgrade | OpUpgradeDry | OpLint.
 
 Record obs := mkObs {
   o_errored : bool; o_schema : bool; o_names : list string;
@@ -28,6 +28,7 @@ Definition same_set (a b : list string) : bool := subset a b && subset b a.
 Definition flags_of (o : op) (skip skipcrds : bool) : flags :=
   match o with
   | OpInstall => mkFlags false false skipcrds skip true false false
+  | OpInstallPlain => mkFlags false false skipcrds skip false false false   (* no --create-namespace *)
   | OpInstallDry => mkFlags false true skipcrds skip false false false
   | OpTemplate => mkFlags true true skipcrds skip false true false
   | OpUpgrade => mkFlags false false skipcrds skip false false false
@@ -46,7 +47,7 @@ Definition model_obs (c : chart) (vals : vmap) (tbl : list (string * string * bo
   let compat := compat_of tbl in
   let fl := flags_of o skip skipcrds in
   match o with
-  | OpInstall | OpInstallDry | OpTemplate => obs_of_trace (install_trace compat fl c vals)
+  | OpInstall | OpInstallPlain | OpInstallDry | OpTemplate => obs_of_trace (install_trace compat fl c vals)
   | OpUpgrade | OpUpgradeDry => obs_of_trace (upgrade_trace compat fl c vals)
   | OpLint =>
       let lv := lint_values_rule c vals in
